@@ -7,7 +7,7 @@ CFG = cfg('C04', refine=['Refine_encrypt'], extract='Ex_C03', driver='c03',
                'thorough: every bit of 10 messages over 3DES/CAST5/Blowfish/AES/Camellia x passphrase/RSA/ECDH(25519, P-256/384/521, secp256k1)/mixed recipients; '
                'extension, over-long / short header length, block swaps / deletions / duplications, MDC replaced / zeroed / removed, data emptied, version octet, '
                'tag 18 -> 9 re-framing incl. realigned downgrade forms, session-key packets reordered / duplicated / removed / foreign, splices between two messages '
-               'with the same and with different session keys, session keys without data (PGPError), the algorithm octet of every PKESK set to unlisted ids / listed ids without ciphertext class / the other listed encryption algorithms (quick and thorough: kept packet re-exported octet for octet, passphrase recipients still get the original, the addressed key is refused), exception CLASS at the decrypt stage compared with the model on every rejected input, faults made WITH the session key that damage exactly one gate condition (repeat octets, MDC header, digest range, digest length, MDC position), wrong passphrases, every non-recipient key; same-object histories (decrypt(right) then wrong / empty / one zero octet / non-recipient key on ONE message object, wrong-right-wrong-right, all recipients then strangers): a wrong secret must raise whatever was done with the object before, each step compared with the model; deterministic search for the legacy tag-9 downgrade finding. distinct = distinct (message, mutation, recipient)',
+               'with the same and with different session keys, session keys without data (PGPError), every session-key packet and the data packet re-tagged as each kind a message takes without a key (19, 11, 10, 8, 2, 4) as it stands and with a literal / marker header that swallows the rest written at body offset 0 and 20 (deterministic form of the single-bit flip C3 -> D3 that MDC.parse let through, repaired in 9b50cd0 / 08ffd01), the algorithm octet of every PKESK set to unlisted ids / listed ids without ciphertext class / the other listed encryption algorithms (quick and thorough: kept packet re-exported octet for octet, passphrase recipients still get the original, the addressed key is refused), exception CLASS at the decrypt stage compared with the model on every rejected input, faults made WITH the session key that damage exactly one gate condition (repeat octets, MDC header, digest range, digest length, MDC position), wrong passphrases, every non-recipient key; same-object histories (decrypt(right) then wrong / empty / one zero octet / non-recipient key on ONE message object, wrong-right-wrong-right, all recipients then strangers): a wrong secret must raise whatever was done with the object before, each step compared with the model; deterministic search for the legacy tag-9 downgrade finding. distinct = distinct (message, mutation, recipient)',
           trusted=['Spec/Rfc4880_enc.v (RFC 5.13/5.14 MDC validity)',
                    'primitive oracle: hashlib + cryptography/OpenSSL called directly by tools/harness/c03.py'],
           assumptions=['NOT a theorem: that no other ciphertext / session-key packet / passphrase passes the SHA-1 gate or the 16-bit checksum (SHA-1, CFB, RSA, AES-key-wrap strength); '
